@@ -528,3 +528,126 @@ def deep_origins(F, body, op, depth=5, same_module=True, _stack=(), stop=None, u
             continue
         out.add(l)
     return out
+
+
+def fmt_templates(body):
+    """Decodes the `format_args!` templates of a body (byte strings handed to fmt::Arguments::new; encoding documented in
+    library/core/src/fmt/mod.rs): list of templates, each a list of ('lit', text) | ('arg', {'width': int|None, 'zero': bool}).
+    Returns None for a template that does not decode (callers fail closed)."""
+    import ast
+    out = []
+    for i in body.live_blocks():
+        for st in body.blocks[i].get("s", []):
+            v = st.get("v") or {}
+            o = v.get("o") if v.get("r") == "use" else None
+            if not isinstance(o, dict) or "k" not in o or not str(o.get("ty", "")).startswith("&[u8;") or not o["k"].startswith('b"'):
+                continue
+            try:
+                raw = ast.literal_eval(o["k"])
+            except Exception:
+                out.append(None)
+                continue
+            parts, p, ok = [], 0, True
+            while p < len(raw):
+                n = raw[p]
+                p += 1
+                if n == 0:
+                    break
+                if n < 0x80:
+                    parts.append(("lit", raw[p:p + n].decode("utf8", "replace")))
+                    p += n
+                elif n == 0x80:
+                    ln = raw[p] | (raw[p + 1] << 8)
+                    parts.append(("lit", raw[p + 2:p + 2 + ln].decode("utf8", "replace")))
+                    p += 2 + ln
+                elif n >= 0xC0:
+                    spec = {"width": None, "zero": False}
+                    if n & 1:
+                        flags = int.from_bytes(raw[p:p + 4], "little")
+                        spec["zero"] = bool(flags & (1 << 24))
+                        p += 4
+                    if n & 2:
+                        spec["width"] = raw[p] | (raw[p + 1] << 8)
+                        p += 2
+                    if n & 4:
+                        p += 2
+                    if n & 8:
+                        p += 2
+                    parts.append(("arg", spec))
+                else:
+                    ok = False
+                    break
+            out.append(parts if ok else None)
+    return out
+
+
+def sort_sites(F, body, depth=2, _seen=None):
+    """(body, call) of every slice sort executed by `body` itself or by crate functions it calls (depth levels)."""
+    out = []
+    _seen = _seen if _seen is not None else set()
+    if body.key in _seen:
+        return out
+    _seen.add(body.key)
+    for c in body.calls:
+        if c.cleanup:
+            continue
+        if re.search(r"slice::(sort|sort_unstable|sort_by|sort_by_key|sort_unstable_by|sort_unstable_by_key|sort_by_cached_key)$", c.nname):
+            out.append((body, c))
+        elif depth > 0 and c.callee and F.has(c.callee):
+            out += sort_sites(F, F.fn_exact(c.callee), depth - 1, _seen)
+    return out
+
+
+def reaches_int_parse(F, body, depth=3, _seen=None):
+    """True if the body or crate functions / closures it uses (depth levels) parse text into an integer."""
+    _seen = _seen if _seen is not None else set()
+    if body.key in _seen:
+        return False
+    _seen.add(body.key)
+    for c in body.calls:
+        if c.cleanup:
+            continue
+        if re.search(r"str::parse$|str>::parse$|FromStr>::from_str$|from_str_radix$", c.nname) and re.search(r"\b[ui](8|16|32|64|128|size)\b", c.name + " " + str(c.ga or "")):
+            return True
+        if depth > 0 and c.callee and F.has(c.callee) and reaches_int_parse(F, F.fn_exact(c.callee), depth - 1, _seen):
+            return True
+    if depth > 0:
+        for k in F.keys():
+            if k.startswith(body.key + "::{closure#") and reaches_int_parse(F, F.fn_exact(k), depth - 1, _seen):
+                return True
+    return False
+
+
+def sort_call_sites(F, body):
+    """call sites of `body` through which a slice sort is executed (the sort itself, or a crate helper that sorts)"""
+    out = []
+    for c in body.calls:
+        if c.cleanup:
+            continue
+        if re.search(r"slice::sort(_unstable)?(_by|_by_key|_by_cached_key)?$", c.nname):
+            out.append(c)
+        elif c.callee and F.has(c.callee) and sort_sites(F, F.fn_exact(c.callee), 1):
+            out.append(c)
+    return out
+
+
+def self_fields_read(body):
+    """names of the fields of `self` (local 1) a body mentions in any place (reads and writes)"""
+    out = set()
+
+    def walk(x):
+        if isinstance(x, dict):
+            for k, v in x.items():
+                if k in ("p", "m", "c", "a") and isinstance(v, list) and v and v[0] == 1:
+                    for e in v[1:]:
+                        if isinstance(e, str) and e.startswith("."):
+                            out.add(e)
+                            break
+                else:
+                    walk(v)
+        elif isinstance(x, list):
+            for e in x:
+                walk(e)
+    for i in body.live_blocks():
+        walk(body.blocks[i])
+    return out
